@@ -5,6 +5,7 @@ import (
 	"fmt"
 	"reflect"
 	"sort"
+	"time"
 )
 
 // special (non-generic) methods that the alphabet handles explicitly; every other exported *Event method
@@ -114,7 +115,37 @@ func BuildAlphabet() *Alphabet {
 	addF(Field{M: "Fields", Val: []interface{}{1, 2, "k", "v"}}, false)
 	addF(Field{M: "Fields", Val: "not a map"}, false)
 	addF(Field{M: "Fields", Val: map[string]interface{}{"n": nil, "p": (*int)(nil), "s": []string{"a"}, "st": plainStruct{A: 1}}}, false)
+	// Fields with every pointer-typed arm of the type switch, nil and non-nil
+	addF(Field{M: "Fields", Val: PointerFieldsMap(false)}, false)
+	addF(Field{M: "Fields", Val: PointerFieldsMap(true)}, false)
+	addF(Field{M: "Fields", Val: []interface{}{"ps", ptrTo("x\"y"), "pn", (*string)(nil), "pf", ptrTo(1.5), "pd", ptrTo(1500 * time.Microsecond), "pt", ptrTo(TFix)}}, false)
 	return a
+}
+
+func ptrTo(v interface{}) interface{} {
+	switch x := v.(type) {
+	case string:
+		return &x
+	case float64:
+		return &x
+	case time.Duration:
+		return &x
+	case time.Time:
+		return &x
+	}
+	return nil
+}
+
+// PointerFieldsMap: one entry per pointer-typed arm of Fields' type switch.
+func PointerFieldsMap(nils bool) map[string]interface{} {
+	if nils {
+		return map[string]interface{}{"s": (*string)(nil), "b": (*bool)(nil), "i": (*int)(nil), "i8": (*int8)(nil), "i16": (*int16)(nil), "i32": (*int32)(nil), "i64": (*int64)(nil),
+			"u": (*uint)(nil), "u8": (*uint8)(nil), "u16": (*uint16)(nil), "u32": (*uint32)(nil), "u64": (*uint64)(nil), "f32": (*float32)(nil), "f64": (*float64)(nil), "t": (*time.Time)(nil), "d": (*time.Duration)(nil)}
+	}
+	s, b, i, i8, i16, i32, i64 := "p\n", true, -1, int8(-128), int16(-32768), int32(-2147483648), int64(-9223372036854775808)
+	u, u8, u16, u32, u64 := uint(18446744073709551615), uint8(255), uint16(65535), uint32(4294967295), uint64(18446744073709551615)
+	f32, f64, t, d := float32(0.1), 1e21, TFix, 1500*time.Microsecond
+	return map[string]interface{}{"s": &s, "b": &b, "i": &i, "i8": &i8, "i16": &i16, "i32": &i32, "i64": &i64, "u": &u, "u8": &u8, "u16": &u16, "u32": &u32, "u64": &u64, "f32": &f32, "f64": &f64, "t": &t, "d": &d}
 }
 
 // Rekey gives the symbol at window position pos a position-specific key when it uses the default key.
